@@ -118,9 +118,9 @@ def updateState (cls : Classifier) (s : Store) : Store × Except Exc Unit :=
   match base with
   | .error e => (s, .error e)
   | .ok r =>
-    -- CURRENT TREE: `if self._debt > 0:` divides by the capacity unguarded
+    -- `if self._debt > 0 and total_capacity > 0:` (the guard is what keeps this division from raising)
     let pen : Except Exc (Option Quo) :=
-      if s.debt > 0 then (pyDiv s.debt cap).map some else .ok none
+      if s.debt > 0 ∧ cap > 0 then (pyDiv s.debt cap).map some else .ok none
     match pen with
     | .error e => (s, .error e)
     | .ok p => ({ s with state := cls r p }, .ok ())
@@ -154,13 +154,8 @@ def refuse (s : Store) : Store := record { s with failed := s.failed + 1 }
 def debtPath (s : Store) (cost : Nat) (cur : Cur) (allowDebt : Bool) (balance : Int) (afterTopup : Bool) :
     Store × Branch :=
   if allowDebt = true ∧ s.debt < s.maxDebt ∧ s.debt + (cost - balance) ≤ s.maxDebt then
-    -- CURRENT TREE: only ATP and GTP are zeroed; in the NADH currency the balance stays
-    let s1 := { s with debt := s.debt + (cost - balance) }
-    let s2 := match cur with
-      | .atp => { s1 with atp := 0 }
-      | .gtp => { s1 with gtp := 0 }
-      | .nadh => s1
-    (charge s2 cost, .debt afterTopup)
+    -- the pool that was short is emptied (`self.atp = 0` / `self.gtp = 0` / `self.nadh = 0`), the rest is owed
+    (charge ({ s with debt := s.debt + (cost - balance) }.setBal cur 0) cost, .debt afterTopup)
   else (refuse s, .refused afterTopup)
 
 /-- Everything `consume` does inside the lock except the final `_update_state()` of the success paths. -/
@@ -174,8 +169,8 @@ def consumeCore (s : Store) (cost : Nat) (cur : Cur) (allowDebt : Bool) (prio : 
     let s1 := { s0 with nadh := s.nadh - conv, atp := s.atp + conv }
     if (cost : Int) ≤ s1.atp then (charge { s1 with atp := s1.atp - cost } cost, .topup)
     else
-      -- CURRENT TREE: `balance` still holds the pre-top-up ATP balance
-      debtPath s1 cost cur allowDebt s.atp true
+      -- `balance = self.atp`: the deficit is computed from the balance after the top-up
+      debtPath s1 cost cur allowDebt s1.atp true
   else debtPath s0 cost cur allowDebt (s.bal cur) false
 
 /-- `consume(cost, _, cur, allow_debt, priority)`: the whole lock region. -/
